@@ -856,6 +856,32 @@ func (c10) Generate(r *sim.Rand, tier string) *sim.Scenario {
 	}
 	newLeaf()
 	n := r.Range(4, maxSteps)
+	if r.Bool(0.004) {
+		// a long-lived leaf: dozens of graphs are built on it and back-propagated
+		// one after the other while the caller keeps the gradient tensors it pulled
+		// in between (existing tensors like any other: they must never change)
+		shape := randShape(r, 2, 3, 6)
+		lf := sim.Step{Op: "tensorof", Out: ids.New(), B: true, I: cpI(shape), F: randData(r, sim.NElems(shape), false)}
+		if add(lf) {
+			// all graphs first (a back-propagated leaf is spent: later results would
+			// be untracked), then one back-propagation after the other
+			var ys []int
+			for k, rounds := 0, r.Range(34, 90); k < rounds; k++ {
+				y := sim.Step{Op: "scale", In: []int{lf.Out}, F: []float64{[]float64{2, -1, 0.5, 3}[k%4]}, Out: ids.New()}
+				if !add(y) {
+					break
+				}
+				ys = append(ys, y.Out)
+			}
+			for k, y := range ys {
+				add(sim.Step{Op: "backprop", In: []int{y}, Out: -1})
+				if r.Bool(0.15) || k == len(ys)-2 {
+					add(sim.Step{Op: "grad", In: []int{lf.Out}, Out: ids.New()})
+				}
+			}
+		}
+		n = r.Range(2, 8)
+	}
 	for k, fails := 0, 0; k < n && fails < 40; {
 		x := r.Intn(100)
 		switch {
